@@ -100,19 +100,40 @@ func init() {
 			genSeed := r.s
 			g = NewGen(r, cfg)
 			directed := i%5 == 4
+			directedKind := ""
+			if directed {
+				directedKind = "meta"
+			} else if i%5 == 2 {
+				directed, directedKind = true, "unbounded"
+			}
 			if c.replay != nil {
 				directed, _ = c.replay.Extra["directed"].(bool)
+				directedKind, _ = c.replay.Extra["directed_kind"].(string)
+				if directed && directedKind == "" {
+					directedKind = "meta"
+				}
 			}
-			if directed {
+			switch directedKind {
+			case "meta":
 				prog = g.metaOverrideProgram()
-			} else {
+			case "unbounded":
+				// an account drawn with unbounded overdraft (its balance is not requested), then read
+				prog = g.unboundedThenBoundedProgram()
+			default:
 				prog = g.Program()
 			}
 			for len(prog.Stmts) < 2 {
 				prog.Stmts = append(prog.Stmts, g.sendStmt())
 			}
 			sc := scenarioFromGen(g, prog, 0, r)
-			sc.Kind = skExact
+			// the store behaviour varies: an account whose balance is absent is answered with an explicit
+			// zero (exact), left out (sparse), or not listed at all (static)
+			sc.Kind = []storeKind{skExact, skSparse, skStatic}[i%3]
+			if c.replay != nil {
+				if kk, ok := c.replay.Extra["store_kind"].(float64); ok {
+					sc.Kind = storeKind(int(kk))
+				}
+			}
 			whole, _ := sc.run()
 			ks := []int{}
 			for kk := 1; kk < len(prog.Stmts); kk++ {
@@ -183,7 +204,7 @@ func init() {
 					sec = "(Some " + coqObserved(*o2, nil) + ")"
 				}
 				ci := sc.info("splitcase")
-				ci.Extra = map[string]any{"k": k, "gen_seed": genSeed, "small_pool": cfg.SmallPool, "directed": directed, "first": shortObserved(o1)}
+				ci.Extra = map[string]any{"k": k, "gen_seed": genSeed, "small_pool": cfg.SmallPool, "directed": directed, "directed_kind": directedKind, "store_kind": int(sc.Kind), "first": shortObserved(o1)}
 				if o2 != nil {
 					ci.Extra["second"] = shortObserved(*o2)
 				}
